@@ -76,6 +76,18 @@ Proof.
   apply N.mod_mod. discriminate.
 Qed.
 
+Lemma wrap60_idem : forall a, wrap60 (wrap60 a) = wrap60 a.
+Proof. intro a. apply wrap60_small. apply wrap60_lt. Qed.
+
+Lemma INT64TOINT60_wrap60 : forall x, INT64TOINT60 x = wrap60 x.
+Proof.
+  intro x. unfold INT64TOINT60, wrap60, two60.
+  change 1152921504606846975 with (N.ones 60). apply N.land_ones.
+Qed.
+
+Lemma int60_wrap64 : forall a, INT64TOINT60 (wrap64 a) = wrap60 a.
+Proof. intro a. rewrite INT64TOINT60_wrap60. apply wrap60_wrap64. Qed.
+
 Lemma wrap60_add_l : forall a b, wrap60 (wrap60 a + b) = wrap60 (a + b).
 Proof. intros. unfold wrap60. apply N.add_mod_idemp_l. discriminate. Qed.
 
